@@ -7,7 +7,7 @@ From LV Require Import Base.Prelude Cfg.Grammar Earley.Spec Forest.ExplicitToTre
   Forest.ExplicitBuild Forest.ExplicitBuild_proofs Forest.ExplicitBuildCheck
   Earley.Alg Earley.Alg_proofs Forest.ExplicitAlgBuild Forest.ExplicitAlgBuild_proofs
   Earley.Dyn Earley.Dyn_proofs Forest.ExplicitDynBuild Forest.ExplicitDynSound Forest.ExplicitDynBuild_proofs
-  Forest.ExplicitDynFamilies_proofs.
+  Forest.ExplicitDynFamilies_proofs Forest.ExplicitDynComplete_proofs.
 Import ListNotations.
 Local Open Scope string_scope.
 Local Open Scope list_scope.
@@ -268,6 +268,50 @@ Proof.
   - exact (idyn_empty_families G start n rmatch rtrunc complete_lex ignore Hf).
 Qed.
 Print Assumptions C04_A_dynamic_complete_partial.
+
+(* Completeness of the scanner's bookkeeping in the dynamic model (delayed_matches invariant lifted to the instrumented
+   entries): for every column the run builds,
+   - every chart item advanced over a token edge has its token family
+     (label of advance x at j, (rule, node of x at k, token node (t, k, j))) in the log;
+   - every carry-over (a to_scan item, or a completed start item, carried along an ignore edge k -> j) has copied the
+     packed children of the carried node (s, start, k) to (s, start, j).  What lark copies is node.children, i.e. the
+     first family per (left, right) - PackedNode equality ignores the rule -, so the statement is modulo that
+     equality: for every family f logged under (s, start, k) there is a family f0 under the same label with the same
+     (left, right) whose (rule, left, right) is logged under (s, start, j).
+   Together with C04_A_dynamic_complete_partial (completions, empty rules) every add_family call site of the dynamic
+   parser is covered.  _partial: the assembly of these family-level facts into "every derivation tree over the
+   position graph is stored below the root" (C04_A_dynamic_exact_full_statement) is not done; the derivation oracle of
+   the acyclic / ignore / overlap streams compares exactly that with lark on every run. *)
+Theorem C04_A_dynamic_scan_complete G start n rmatch rtrunc complete_lex ignore :
+  fwd rmatch rtrunc ->
+  (forall k x t j,
+      gchart G start rmatch rtrunc complete_lex ignore k x -> expect x = Some (T t) ->
+      In j (ends_of rmatch rtrunc complete_lex t k) ->
+      j < length (d_cols (fst (idyn_parse G start n rmatch rtrunc complete_lex ignore))) ->
+      In (tok_fam x k t j) (snd (idyn_parse G start n rmatch rtrunc complete_lex ignore)))
+  /\ (forall k x j f,
+      gchart G start rmatch rtrunc complete_lex ignore k x -> is_term_item x = true \/ is_solution start x = true ->
+      ign_edge rmatch ignore k j ->
+      j < length (d_cols (fst (idyn_parse G start n rmatch rtrunc complete_lex ignore))) -> has_node x ->
+      In f (snd (idyn_parse G start n rmatch rtrunc complete_lex ignore)) -> fst f = node_label x k ->
+      exists f0, fst f0 = node_label x k /\ same_children f f0 = true
+                 /\ In (node_label x j, snd f0) (snd (idyn_parse G start n rmatch rtrunc complete_lex ignore))).
+Proof.
+  intros Hf. split.
+  - exact (idyn_token_families G start n rmatch rtrunc complete_lex ignore Hf).
+  - exact (idyn_carry_copies G start n rmatch rtrunc complete_lex ignore Hf).
+Qed.
+Print Assumptions C04_A_dynamic_scan_complete.
+
+Definition C04_A_dynamic_exact_full_statement : Prop :=
+  forall G start n rmatch rtrunc complete_lex ignore,
+    fwd rmatch rtrunc ->
+    d_out (fst (idyn_parse G start n rmatch rtrunc complete_lex ignore)) = DAccept ->
+    forall ds,
+      den span (in_forest span (map span_fam (snd (idyn_parse G start n rmatch rtrunc complete_lex ignore))))
+          (NSym span start 0 n) ds
+      <-> exists d, ds = [d] /\ dwfd G (run_tokedge rmatch rtrunc complete_lex) d (NT start)
+                    /\ gtiles (run_tokedge rmatch rtrunc complete_lex) (ign_edge rmatch ignore) 0 n (yield span d).
 
 (* non-vacuity: start: X with %ignore " " on "x " (terminal 0 = X matches 0..1, terminal 1 = the ignored blank matches
    1..2): accepted; the family of (start, 0, 1) is copied to (start, 0, 2) by the carry-over; all families have the
